@@ -57,11 +57,28 @@ def gen(rng, tier):
         if any(dl >= 1 or dl <= 0 for dl in deltas):
             continue   # the delta setter rejects these
         line = "%s %s %s" % (GRID[d['kind']], S.args(d), " ".join(fr(x) for x in deltas))
-        out.append(Case('grid', line, dict(shape=d, sizes=sizes)))
+        # half of the cases first read the grid with other sizes and then change ONE direction only
+        first = None
+        if rng.random() < .5:
+            first = list(sizes)
+            k = rng.randrange(len(sizes))
+            first[k] = sizes[k] + 1 if sizes[k] < hi else sizes[k] - 1
+            if first[k] < 2 or (S.dirs(d)[k][1][S.dirs(d)[k][2]] - S.dirs(d)[k][1][S.dirs(d)[k][0]]) / first[k] >= 1:
+                first = None
+        out.append(Case('grid', line, dict(shape=d, sizes=sizes, first=first)))
+    # floating point: the requested sample size is honoured for every n (rounding of 1/delta)
+    out.append(Case('float-sizes', None, dict(lo=2, hi=130 if tier == 'quick' else 400)))
     return out
 
 
-def _set_sizes(o, d, sizes):
+def _set_sizes(o, d, sizes, first=None):
+    if first:
+        _set_sizes(o, d, first)
+        o.evalpts                      # read, then change only the directions that differ
+        for k, (a, b) in enumerate(zip(first, sizes)):
+            if a != b:
+                setattr(o, 'sample_size' if d['kind'] == 'curve' else 'sample_size_' + 'uvw'[k], b)
+        return
     if d['kind'] == 'curve':
         o.sample_size = sizes[0]
     elif d['kind'] == 'surface':
@@ -92,14 +109,14 @@ def impl(c):
         arg = [p[0] for p in pl] if d['kind'] == 'curve' else [tuple(p) for p in pl]
         return show_list(o.evaluate_list(arg)[c.data['j']])
     if c.kind == 'grid':
-        _set_sizes(o, d, c.data['sizes'])
+        _set_sizes(o, d, c.data['sizes'], c.data.get('first'))
         return show_pts(o.evalpts)
     raise ValueError(c.kind)
 
 
 def oracle(c):
-    d = c.data['shape']
-    o = S.build(d)
+    d = c.data.get('shape')
+    o = S.build(d) if d else None
     if c.kind in ('single', 'list', 'ders0'):
         ps = c.data['params']
         want = S.eval_ref(d, ps)
@@ -115,25 +132,46 @@ def oracle(c):
             if list(d0) != want:
                 return "derivatives(order=0) differs from evaluate_single at %s" % (tuple(map(fr, ps)),)
         return None
+    if c.kind == 'float-sizes':
+        import subprocess, sys, os, json
+        from core import REPO, VERIF
+        p = subprocess.run([sys.executable, os.path.join(VERIF, 'harness', 'float_probe.py'), REPO, 'samplesize', str(c.data['lo']), str(c.data['hi'])],
+                           capture_output=True, text=True, timeout=600)
+        if p.returncode != 0:
+            return "float sample-size probe failed: %s" % (p.stderr.strip().splitlines() or ['?'])[-1]
+        bad = json.loads(p.stdout)['bad']
+        if bad:
+            return "floating point: sample_size = %d yields %d evaluated points (curve), first of %d such sizes" % (bad[0][0], bad[0][1], len(bad))
+        return None
     if c.kind == 'grid':
+        import itertools
         sizes = c.data['sizes']
-        _set_sizes(o, d, sizes)
+        _set_sizes(o, d, sizes, c.data.get('first'))
         pts = o.evalpts
         total = 1
-        for s in sizes:
-            total *= s
-        if len(pts) != total:
-            return "sampled grid has %d points, requested sample sizes %s" % (len(pts), sizes)
+        for s_ in sizes:
+            total *= s_
         ds = S.dirs(d)
-        params = [[kv[p] + (kv[n] - kv[p]) * F(i, sz - 1) for i in range(sz)] for (p, kv, n), sz in zip(ds, sizes)]
+        msg = None
+        use = list(sizes)
+        if len(pts) != total:
+            msg = "sampled grid has %d points, requested sample sizes %s" % (len(pts), sizes)
+            # recorded finding F-01 (un-normalised knot range): the size read back is floor(n/range + 1/2);
+            # the points must still be the evenly spaced grid of THAT size over the true domain
+            use = [int((kv[n] - kv[p]) and (F(sz) / (kv[n] - kv[p]) + F(1, 2)) // 1) for (p, kv, n), sz in zip(ds, sizes)]
+            t2 = 1
+            for s_ in use:
+                t2 *= s_
+            if t2 != len(pts) or all(S.unit_range(kv) for (_, kv, _) in ds):
+                return msg
+        params = [[kv[p] + (kv[n] - kv[p]) * F(i, sz - 1) for i in range(sz)] if sz > 1 else [kv[p]] for (p, kv, n), sz in zip(ds, use)]
         idx = 0
-        import itertools
         for combo in itertools.product(*params):   # u slowest ... last direction fastest
             want = S.eval_ref(d, list(combo))
             if list(pts[idx]) != want:
                 return "grid point %d (parameters %s) is %s, the definition gives %s" % (idx, tuple(map(fr, combo)), show_list(pts[idx]), show_list(want))
             idx += 1
-        return None
+        return msg
     return None
 
 
